@@ -27,6 +27,7 @@ import tokenize
 from pathlib import Path
 
 from cutplace import _compat, _tools, checks, data, errors, fields, rowio
+from cutplace import _verif
 
 _log = logging.getLogger("cutplace")
 
@@ -267,6 +268,7 @@ class Cid(object):
         if self._cid_path is None:
             self._cid_path = cid_path
         for row in rows:
+            _verif.emit_cid("cid_row_begin", self, row)
             if row:
                 row_type = row[0].lower().strip()
                 row_data = (row[1:] + [""] * 6)[:6]
@@ -282,11 +284,13 @@ class Cid(object):
                         'CID row type is "%s" but must be empty or one of: C, D, or F' % row_type, self._location
                     )
             self._location.advance_line()
+            _verif.emit_cid("cid_row_end", self)
         if self.data_format is None:
             raise errors.InterfaceError("data format must be specified", self._location)
         self.data_format.validate()
         if len(self.field_names) == 0:
             raise errors.InterfaceError("fields must be specified", self._location)
+        _verif.emit_cid("cid_done", self)
 
     def add_field_format(self, field_format):
         """
